@@ -196,6 +196,9 @@ def run(chk, tier, scale=1.0):
                 b"a /* b", b'a "b', b"a b c d", b"a { b { c { d", b"a ()()", b"a ,", b", a", b"a b; }", b"a { } }", b'a "\\x', b'a "\\x4', b'a "\\',
                 b"a " + b"{ b " * 1000, b"a " + b"{ b " * 1000 + b"1 " + b"} " * 1000 + b"\n", b'a "' + b"x" * 65536 + b'"\n', b'a "' + b"x" * 65536,
                 b"a (" + b"b," * 3000 + b"c)\n", b"\xff\xfe\xfd", bytes(range(1, 256)), b"a b\n" * 2000, "missing", "directory"]
+    # valid files that spell the keys of the prior configurations in another letter case (accepted; the aftermath load follows)
+    specials += [b'ALPHA {\n S "respelled";\n L ("q");\n};\n', b'Alpha { O { X "2"; }; s "t"; };\nBETA { T "9m"; I "h" "1"; };\n',
+                 b'alpha { S "a"; s "b"; };\n', b'LOOSE "x";\nalpha { o { OO { Y ("z"); }; }; };\n']
     # escape sequences cut short or malformed, at every distance from the closing quote
     for esc in [b"\\x", b"\\x4", b"\\x4z", b"\\xg", b"\\x41", b"\\xZ9", b"\\", b"\\q", b"\\x4\\x4", b"\\x\\x", b"\\xff\\x", b"\\x0", b"\\x00", b"\\n\\x1"]:
         for tmpl in (b'a "%s"\n', b'a "%s', b'a "xy%s"\n', b'a "%sxy"\n', b'a ("%s", "b")\n', b'"%s" v\n', b'o { k "%s" }\n', b'a "%s" "%s"\n', b'a b, "%s"\n',
